@@ -58,7 +58,7 @@ def verus_version():
 
 # --------------------------------------------------------------------------- build
 
-def build(vacuity=False, unit='core'):
+def build(vacuity=False, unit='core', split=None, tag=''):
     ex = X.extract(REPO)
     spec = ''.join('//@@SPECFILE %s\n' % os.path.relpath(p, ROOT) + open(p).read() + '\n'
                    for p in sorted(glob.glob(os.path.join(ROOT, 'spec', '*.rs'))))
@@ -70,11 +70,11 @@ def build(vacuity=False, unit='core'):
         raise Undecided('spec/noise_patterns.txt: %s' % e)
     vspecs = [('spec/noise_patterns.txt(generated)', pat_vspec)]
     vspecs += [(os.path.relpath(p, ROOT), open(p).read()) for p in sorted(glob.glob(os.path.join(ROOT, 'contracts', '*.vspec')))]
-    woven, info = W.weave(src, vspecs, vacuity=vacuity)
+    woven, info = W.weave(src, vspecs, vacuity=vacuity, split=split)
     if vacuity:
         woven = lemma_vacuity_probes(woven, info)
     os.makedirs(BUILD, exist_ok=True)
-    path = os.path.join(BUILD, 'snow_verus%s.rs' % ('_vacuity' if vacuity else ''))
+    path = os.path.join(BUILD, 'snow_verus%s%s.rs' % ('_vacuity' if vacuity else '', tag))
     open(path, 'w').write(woven)
     return ex, woven, info, path
 
@@ -146,7 +146,12 @@ def run_verus(path, woven, extra=(), tag=''):
             pass
     t0 = time.time()
     nthreads = os.environ.get('VERIF_THREADS', '15')
-    cmd = ['verus', path] + VERUS_FLAGS + ['--num-threads', nthreads] + list(extra)
+    extra = list(extra)
+    if '--num-threads' in extra:
+        k = extra.index('--num-threads')
+        nthreads = extra[k + 1]
+        del extra[k:k + 2]
+    cmd = ['verus', path] + VERUS_FLAGS + ['--num-threads', nthreads] + extra
     pr = subprocess.run(cmd, capture_output=True, text=True, cwd=BUILD)
     wall = time.time() - t0
     try:
@@ -308,14 +313,43 @@ UNITS = [
 ]
 
 
+def _fn_verus_args(fnid):
+    parts = fnid.split('::')
+    # module path = leading lower-case segments; function = the rest
+    k = 0
+    while k < len(parts) - 1 and parts[k][:1].islower():
+        k += 1
+    return ['--verify-only-module', '::'.join(parts[:k]), '--verify-function', '::'.join(parts[k:])]
+
+
 def collect_unit(unit, vacuity=False):
+    variants = []
     if unit['build'] == 'core':
-        ex, woven, info, path = build(vacuity=vacuity)
+        # path-split verification (contracts may declare `@split` cases for functions with large loop bodies):
+        # main run = every declared case cut by assume(false); one extra run per case with only that case enabled
+        ex, woven, info, path = build(vacuity=vacuity, split=('*', '*'))
+        if not vacuity:
+            for fnid, cases in sorted(info.get('splits', {}).items()):
+                for case in cases:
+                    variants.append((fnid, case))
     else:
         ex, woven, info, path = build_wrappers(vacuity=vacuity)
     model = Model(woven, info)
     model.unit = unit
-    out, diags, hit, wall = run_verus(path, woven, extra=unit['flags'])
+    import concurrent.futures
+
+    def run_variant(fc):
+        fnid, case = fc
+        tag = '__%s__%s' % (re.sub(r'\W+', '_', fnid), case)
+        ex2, woven2, info2, path2 = build(vacuity=False, split=(fnid, case), tag=tag)
+        m2 = Model(woven2, info2)
+        m2.unit = unit
+        out2, diags2, hit2, wall2 = run_verus(path2, woven2, extra=unit['flags'] + _fn_verus_args(fnid) + ['--num-threads', '2'])
+        return fnid, case, m2, out2, diags2, hit2, wall2, path2
+    with concurrent.futures.ThreadPoolExecutor(max_workers=8) as pool:
+        futs = [pool.submit(run_variant, fc) for fc in variants]
+        out, diags, hit, wall = run_verus(path, woven, extra=unit['flags'])
+        vresults = [f.result() for f in futs]
     vr = out.get('verification-results', {})
     if vr.get('encountered-vir-error') or ('verified' not in vr):
         # rustc / VIR level failure: the text did not type-check -> undecided
@@ -334,6 +368,30 @@ def collect_unit(unit, vacuity=False):
         if e and (pre is None or (e.get('fn') or '').startswith(pre)):
             e['unit'] = unit['name']
             errors.append(e)
+    split_info = []
+    for (fnid, case, m2, out2, diags2, hit2, wall2, path2) in vresults:
+        vr2 = out2.get('verification-results', {})
+        if vr2.get('encountered-vir-error') or ('verified' not in vr2):
+            raise Undecided('verus rejected split variant %s/%s' % (fnid, case))
+        ok2, ms2 = True, 0
+        for m in out2.get('times-ms', {}).get('smt', {}).get('smt-run-module-times', []):
+            for f in m.get('function-breakdown', []):
+                if short_fn(f['function']) == fnid:
+                    ok2 = ok2 and bool(f.get('success'))
+                    ms2 += f.get('time', 0)
+        if fnid in funcs:
+            funcs[fnid]['ok'] = funcs[fnid]['ok'] and ok2
+            funcs[fnid]['ms'] += ms2
+        for d in diags2:
+            e = map_diag(m2, d, path2)
+            if e and e.get('fn') == fnid:
+                e['unit'] = unit['name']
+                e['split_case'] = case
+                errors.append(e)
+        split_info.append({'fn': fnid, 'case': case, 'ok': ok2, 'solver_ms': ms2, 'wall_s': round(wall2, 1), 'cache_hit': hit2})
+        hit = hit and hit2
+        wall = max(wall, wall2)
+    model.split_info = split_info
     return {'unit': unit, 'ex': ex, 'model': model, 'funcs': funcs, 'errors': errors, 'cache_hit': hit, 'wall_s': wall,
             'path': path, 'verified': vr.get('verified', 0), 'nerrors': vr.get('errors', 0)}
 
@@ -407,6 +465,8 @@ TRUST_PATTERNS = [('assume', r'\bassume\s*\('), ('admit', r'\badmit\s*\(\s*\)'),
 def trusted_scan(model):
     found = []
     for i, l in enumerate(model.lines, 1):
+        if '//@@SPLIT-CUT' in l:
+            continue          # framework-inserted path cut: that path is verified in its own split variant
         code = l.split('//')[0]
         for kind, pat in TRUST_PATTERNS:
             if re.search(pat, code):
@@ -609,6 +669,7 @@ def check_property(pid, tier, res=None, vres=None, quiet=False):
         'coverage': {
             'obligations': n_ob, 'discharged': n_dis,
             'checker_cmd': ' ; '.join('verus %s %s' % (os.path.relpath(u['path'], ROOT), ' '.join(VERUS_FLAGS + u['unit']['flags'])) for u in res['units']),
+            'path_split_verification': [x for u in res['units'] for x in getattr(u['model'], 'split_info', [])],
             'units': [{'unit': u['unit']['name'], 'verus_wall_s': round(u['wall_s'], 1), 'cache_hit': u['cache_hit'], 'verified_functions': u['verified'], 'failed_functions': u['nerrors'],
                        'extraction_rule_sites': u['ex'].counts, 'not_in_verified_text': u['ex'].dropped} for u in res['units']],
             'trusted_base': trusted,
